@@ -72,6 +72,16 @@ pub enum VClass {
 }
 
 pub fn valid_vector(t: &mut Tape, dim: usize, metric: Metric) -> Vec<f32> {
+    // Euclidean stores inputs verbatim and accepts every finite vector, including all-zero
+    // vectors (+0.0 / -0.0 lanes) and vectors of tiny norm
+    if metric == Metric::Euclidean && t.chance(10) {
+        let neg = t.chance(128);
+        return match t.below(3) {
+            0 => vec![if neg { -0.0 } else { 0.0 }; dim],
+            1 => (0..dim).map(|i| if (i % 2 == 0) == neg { -0.0 } else { 0.0 }).collect(),
+            _ => vec![1e-20; dim],
+        };
+    }
     let class = match t.weighted(&[4, 3, 2, 2, 2, 3]) {
         0 => VClass::Unit,
         1 => VClass::Scaled,
